@@ -256,7 +256,12 @@ func forType(t reflect.Type, seen map[reflect.Type]bool, ignore bool, schemas ma
 				s.Properties = make(map[string]*Schema)
 			}
 			if field.Anonymous {
-				override := schemas[field.Type]
+				embedded := field.Type
+				if embedded.Kind() == reflect.Pointer {
+					// An embedded *T contributes the fields of T, so an override for T applies.
+					embedded = embedded.Elem()
+				}
+				override := schemas[embedded]
 				if override != nil {
 					// Type must be object, and only properties can be set.
 					if override.Type != "object" {
